@@ -43,13 +43,17 @@ def main():
                                              {'traceback': traceback.format_exc()},
                                              signature='translator-failed', found_input=False))
     core.log(f'[{pid}] building Coq development ...')
-    b = core.build_coq()
+    tb = time.time()
+    b = core.build_coq(targets=[f'Properties/{pid}.vo'] + list(getattr(mod, 'EXTRA_TARGETS', [])))
+    core.log(f'[{pid}] build {time.time()-tb:.1f}s (incl. waiting for the build lock)')
     vo = os.path.join(core.COQ, 'Properties', f'{pid}.vo')
     src = os.path.join(core.COQ, 'Properties', f'{pid}.v')
     proofs_ok = b.ok or (os.path.exists(vo) and os.path.exists(src) and not _depends_on_failed(pid, b))
     theorems = []
     if proofs_ok:
+        tb = time.time()
         ok, theorems, tlog = core.theorem_report(pid)
+        core.log(f'[{pid}] theorem re-check {time.time()-tb:.1f}s')
         if not ok:
             proofs_ok = False
             b.log += '\n' + tlog
